@@ -7,7 +7,8 @@ completed (from the totally ordered transition log), latency, mean / p99 (own pe
 throughput, assignment / suspension / failure / per-error counters; per pipeline the
 recorded arrival and finish ticks are read back.  Directed classes: nothing arrives,
 nothing finishes, empty class, run shorter than one tick, single uncontended pipeline
-(latency must be exactly the model's tick count - 1), heavy failure."""
+(latency must be exactly the model's tick count - 1), heavy failure, recurring pipeline ids
+(a job name that comes back after its earlier instance finished)."""
 from ..core import rng_for
 from .. import gen
 from . import _sim
@@ -30,7 +31,7 @@ NSHARDS = {"quick": 16, "thorough": 16}
 N_SIM = {"quick": 40, "thorough": 7000}
 REQUIRE = {"stat_fields_compared": 5000, "pipelines_completed_checked": 1000, "empty_class_compared": 100,
            "runs_without_arrivals": 5, "runs_without_completions": 10, "runs_without_container_endings": 5,
-           "uncontended_latency_checked": 30, "sim_release_checked": 0}
+           "uncontended_latency_checked": 30, "runs_with_recurring_pipeline_ids": 8, "sim_release_checked": 0}
 REQUIRE.pop("sim_release_checked")
 
 
@@ -77,8 +78,34 @@ def directed(rng, which):
     return c
 
 
+def recurring_ids_case(rng):
+    """A trace of a real system names pipelines by job: the same pipeline_id comes back, each instance long finished
+    before the next one arrives (instances alive at the same time would be an ill-formed workload: the whole package
+    identifies a live pipeline by its id).  Every instance is a pipeline of its own and has to be counted."""
+    algo = rng.choice(["naive", "priority", "priority-pool", "vtemplate", "overbook"])
+    tps = rng.choice([1, 4, 10, 100])
+    names = [("hourly_report", 3), ("dashboard", 1), ("nightly", 2), ("adhoc", 1)]
+    gap = 40                     # ticks between two instances of one name; an instance needs <= 3 * 3 ticks
+    arrivals = {}
+    n_inst = rng.choice([3, 5, 9])
+    for j, (name, nops) in enumerate(names):
+        for k in range(n_inst):
+            prio = rng.choice(gen.PRIOS)      # a repeat may come back with another priority
+            ops = [_sim._tiny_op(tps, rng.choice([1, 2, 3]), parents=([i - 1] if i else [])) for i in range(nops)]
+            arrivals.setdefault(str(j * 7 + k * gap), []).append({"pid": name, "prio": prio, "ops": ops})
+    last = (n_inst - 1) * gap + 3 * 7
+    # one more instance that is still running when the run stops
+    arrivals.setdefault(str(last + gap), []).append(
+        {"pid": "hourly_report", "prio": "BATCH_PIPELINE", "ops": [_sim._tiny_op(tps, 500)]})
+    params = {"duration": (last + gap + 20) / tps, "ticks_per_second": tps, "num_pools": 2, "cpus_per_pool": 16,
+              "ram_gb_per_pool": 64, "multi_operator_containers": True, "allow_memory_overcommit": algo == "overbook"}
+    return {"kind": "sim", "algo": algo, "params": params, "workload": {"type": "script", "arrivals": arrivals},
+            "_directed": "recurring-ids"}
+
+
 def cases(tier, seed, shard, nshards):
     rng = rng_for(ID, seed, shard)
+    yield recurring_ids_case(rng)
     for which in ("no-arrivals", "no-completions", "sub-tick", "empty-class", "heavy-failure", "empty-class"):
         yield directed(rng, which)
     for i in range(6 if tier == "quick" else 600):
@@ -99,4 +126,10 @@ def cases(tier, seed, shard, nshards):
 
 
 def run_case(case, mon):
-    _sim.run_sim_case(case, mon, ID, nontrivial=lambda h: h.stats is not None)
+    h = _sim.run_sim_case(case, mon, ID, nontrivial=lambda h: h.stats is not None)
+    if case.get("_directed") == "recurring-ids" and h.stats is not None:
+        ids = {p.pipeline_id for p in h.pipelines}
+        done = sum(1 for p in h.pipelines if p.runtime_status().is_pipeline_successful())
+        if len(ids) < len(h.pipelines) and done > len(ids):
+            mon.count("runs_with_recurring_pipeline_ids")
+            mon.count("recurring_id_instances_completed", done)
